@@ -188,6 +188,20 @@ def _exc_class(name):
                 break
             c = None
     if c is None:
+        import importlib
+        import sys
+        for modname in ("hypergraph.exceptions", "hypergraph.graph.validation", "hypergraph.runners._shared.types"):
+            try:
+                importlib.import_module(modname)
+            except Exception:  # noqa: BLE001
+                pass
+        for modname in sorted(m for m in sys.modules if m.startswith("hypergraph")):
+            c = getattr(sys.modules[modname], name, None)
+            if isinstance(c, type) and issubclass(c, BaseException):
+                REG.add(c)
+                break
+            c = None
+    if c is None:
         raise Unsupported(f"unknown exception class {name}")
     return c
 
